@@ -26,6 +26,7 @@ func TestMakeReplays(t *testing.T) {
 	sm := func(k int) uint32 { return uint32(k) << bSourcemap }
 	write("trunc-utf8-sourcescontent", "transform", "finding #9: hangs in QuoteForJSON until helpers.DecodeWTF8Rune advances over a truncated sequence", mkTCase(sm(1), []byte("x=1//\xe0"), nil))
 	write("trunc-utf8-css-local-name", "transform", "finding #9, second route: a local CSS name that ends in a truncated sequence is quoted for the `names` of the source map (found by the quick tier, seed 1)", mkTCase(5|sm(2)|1<<bNoSrcCont, []byte(".b\xc0 { color: blue }"), nil))
+	write("static-block-in-object-literal", "transform", "an object literal with a `static {}` member is parsed as a class static block and the visitor panics (`panic: Unexpected expression of type <nil>`); found by the thorough tier (rapid `transform`, seed 1)", mkTCase(0, []byte("({ static {} })"), nil))
 	write("hazard-trunc-utf8-no-sourcescontent", "transform", "the same input without sourcesContent returns", mkTCase(sm(1)|1<<bNoSrcCont, []byte("x=1//\xe0"), nil))
 	write("hazard-invalid-utf8-middle", "transform", "invalid UTF-8 in the middle with sourcesContent returns", mkTCase(sm(1), []byte("x=1//\xe0\xfd\nlet y = '\xff\xc0\x80\xed\xa0\x80'"), nil))
 	write("hazard-nul-bytes", "transform", "", mkTCase(2|1<<bMinSyntax, []byte("let \x00x = `\x00${\x00}`\x00"), nil))
@@ -37,6 +38,8 @@ func TestMakeReplays(t *testing.T) {
 	write("hazard-srcmap-huge-vlq", "srcmap", "", SCase{Loader: "js", Src: []byte("let a = 1\nlet b = 2"), Map: []byte(`{"version":3,"sources":["a.js",null,1],"sourcesContent":[null,3],"names":[1],"mappings":"AAAA,`+strings.Repeat("g", 3000)+`A;+/////D,AAAAg;;;AADDDDDDD"}`), Enc: "base64", Build: true, Opt: sm(2)})
 	files := map[string][]byte{"entry.js": []byte("import 'pkg/sub'"), "node_modules/pkg/package.json": []byte(`{"browser":{"./sub":"pkg/sub"}}`), "node_modules/pkg/sub.js": []byte("module.exports = 1")}
 	write("browser-map-self-reference", "config", "a `browser` map that remaps ./sub to pkg/sub inside pkg: the resolver recurses until the stack overflows (process crash); found by the config sub-check, seed 2", BCase{Entry: "entry.js", Opt: 0, Files: files})
+	files2 := map[string][]byte{"entry.js": []byte("import 'pkg'"), "node_modules/pkg/package.json": []byte(`{"sideEffects":["\ud800*.css"]}`), "node_modules/pkg/index.js": []byte("module.exports = 1")}
+	write("sideeffects-lone-surrogate-pattern", "config", "a sideEffects glob with a lone surrogate escape makes regexp.MustCompile panic (recovered as a `panic:` diagnostic); found by the config sub-check, seed 4", BCase{Entry: "entry.js", Opt: 0, Files: files2})
 	write("hazard-pkgjson-exports-empty-array", "config", "", BCase{Entry: "entry.tsx", Opt: 1,
 		Files: mkTree([]byte(`{"imports":{"#int":[],"#int/*":[]}}`), []byte(`{"exports":[],"browser":[],"main":[],"sideEffects":[[]]}`), []byte(`{"extends":"./tsconfig.base.json"}`), []byte(`{"extends":["./tsconfig.json","./missing"],"compilerOptions":{"paths":{"@alias/*":[]}}}`), []byte("export {}"))})
 }
